@@ -55,6 +55,8 @@ def catalogue():
     add("filter on state+choice", lambda: dict(n_periods=2, functions=dict(utility=lambda s, d, wealth: d * 1.0 + s + 0 * wealth, next_s=lambda d: d, next_wealth=lambda wealth: wealth, abs_filter=lambda s, d: jnp.logical_or(d == 1, s == 0)), choices=dict(d=dg(2)), states=dict(s=dg(2), wealth=W())), lambda n: {"s": jnp.arange(n) % 2, "wealth": jnp.linspace(1.0, 2.0, n)})
     add("filter on states only", lambda: dict(n_periods=2, functions=dict(utility=lambda s, t, d: d * 1.0 + s + t, next_s=lambda s: s, next_t=lambda t: t, st_filter=lambda s, t: s <= t), choices=dict(d=dg(2)), states=dict(s=dg(2), t=dg(2))), lambda n: {"s": jnp.zeros(n, dtype=int), "t": jnp.arange(n) % 2})
     add("filter on choices only", lambda: dict(n_periods=2, functions=dict(utility=lambda s, d, e: d * 1.0 + s + e, next_s=lambda s: s, de_filter=lambda d, e: d <= e), choices=dict(d=dg(2), e=dg(2)), states=dict(s=dg(2))), lambda n: {"s": jnp.arange(n) % 2})
+    add("filter through an auxiliary function", lambda: dict(n_periods=2, functions=dict(utility=lambda s, d: d * 1.0 + s, next_s=lambda s: s, helper=lambda s, d: s + d, h_filter=lambda helper: helper <= 1), choices=dict(d=dg(2)), states=dict(s=dg(2))), lambda n: {"s": jnp.arange(n) % 2})
+    add("filter on choices only + continuous state", lambda: dict(n_periods=2, functions=dict(utility=lambda wealth, d, e: d * 1.0 + e + 0 * wealth, next_wealth=lambda wealth, d: wealth - d * 0.5, de_filter=lambda d, e: d <= e), choices=dict(d=dg(2), e=dg(2)), states=dict(wealth=W())), w0)
     add("filter on period + choice", lambda: dict(n_periods=2, functions=dict(utility=lambda s, d: d * 1.0 + s, next_s=lambda s: s, p_filter=lambda d, _period: d <= _period), choices=dict(d=dg(2)), states=dict(s=dg(2))), lambda n: {"s": jnp.arange(n) % 2})
     add("filter on a continuous state", lambda: dict(n_periods=2, functions=dict(utility=lambda wealth, d: d * 1.0 + wealth, next_wealth=lambda wealth: wealth, w_filter=lambda wealth, d: d <= wealth), choices=dict(d=dg(2)), states=dict(wealth=W())), w0)
     add("filter + unrestricted discrete choice + cont choice", lambda: dict(n_periods=2, functions=dict(utility=lambda s, d, e, c, wealth: d * 1.0 + s + e + c + 0 * wealth, next_s=lambda d: d, next_wealth=lambda wealth, c: wealth - c, abs_filter=lambda s, d: jnp.logical_or(d == 1, s == 0)), choices=dict(d=dg(2), e=dg(3), c=C()), states=dict(s=dg(2), wealth=W())), lambda n: {"s": jnp.arange(n) % 2, "wealth": jnp.linspace(1.0, 2.0, n)})
